@@ -282,21 +282,22 @@ Definition q_pre (e : event) : bool :=        (* what can happen before shutdown
   match e with
   | Call _ h _ => match h with OAL | OUCC => false | _ => true end
   | Connect _ _ _ | QueueUpstream _ _ | QueueClient _ | Teardown | Escaped _ => true
+  | ClientFlush => true
   | AccessLog _ | UpstreamClose | ClientShutdown | ClientClose => false
   end.
 Definition q_post (e : event) : bool :=       (* what shutdown can add *)
   match e with
   | Call _ h _ => match h with OAL | OUCC => true | _ => false end
-  | AccessLog _ | UpstreamClose | ClientShutdown | ClientClose | Escaped _ => true
+  | AccessLog _ | UpstreamClose | ClientFlush | ClientShutdown | ClientClose | Escaped _ => true
   | _ => false
   end.
 Definition q_noup (e : event) : bool := negb (is_queue_upstream e).     (* anything but an upstream queue entry *)
 Definition q_call (e : event) : bool := match e with Call _ _ _ => true | _ => false end.
 
 Lemma call_q_pre hk : hk <> OAL -> hk <> OUCC -> forall e, is_call_of hk e = true -> q_pre e = true.
-Proof. intros H1 H2 [p h a| | | | | | | | |] H; try discriminate. destruct hk, h; try discriminate; try reflexivity; contradiction. Qed.
+Proof. intros H1 H2 [p h a| | | | | | | | | |] H; try discriminate. destruct hk, h; try discriminate; try reflexivity; contradiction. Qed.
 Lemma call_q_call hk : forall e, is_call_of hk e = true -> q_call e = true.
-Proof. intros [p h a| | | | | | | | |] H; try discriminate. reflexivity. Qed.
+Proof. intros [p h a| | | | | | | | | |] H; try discriminate. reflexivity. Qed.
 Lemma q_call_noup e : q_call e = true -> q_noup e = true.
 Proof. destruct e; try discriminate; reflexivity. Qed.
 
@@ -326,9 +327,9 @@ Proof.
 Qed.
 
 Lemma q_conn_pre e : q_conn e = true -> q_pre e = true.
-Proof. destruct e as [p [] a| | | | | | | | |]; cbn; try discriminate; reflexivity. Qed.
+Proof. destruct e as [p [] a| | | | | | | | | |]; cbn; try discriminate; reflexivity. Qed.
 Lemma q_conn_noup e : q_conn e = true -> q_noup e = true.
-Proof. destruct e as [p [] a| | | | | | | | |]; cbn; try discriminate; reflexivity. Qed.
+Proof. destruct e as [p [] a| | | | | | | | | |]; cbn; try discriminate; reflexivity. Qed.
 
 (* _queue_request_for_upstream: at most one entry, and it is the rebuilt scrubbed request *)
 Lemma queue_request_spec cf t r l :
@@ -524,7 +525,7 @@ Proof.
 Qed.
 
 Lemma call_q_post hk : hk = OAL \/ hk = OUCC -> forall e, is_call_of hk e = true -> q_post e = true.
-Proof. intros [->| ->] [p [] a| | | | | | | | |] H; try discriminate; reflexivity. Qed.
+Proof. intros [->| ->] [p [] a| | | | | | | | | |] H; try discriminate; reflexivity. Qed.
 
 Lemma access_log_stage_post ps t c0 l : delta_ok q_post l (fst (access_log_stage ps t c0 l)).
 Proof.
@@ -550,11 +551,17 @@ Proof.
   eapply dok_trans; [exact P3|apply dok_app; reflexivity].
 Qed.
 
-Lemma shutdown_post ps st c0 l : delta_ok q_post l (shutdown ps st c0 l).
+Lemma shutdown_core_post ps st c0 l : delta_ok q_post l (shutdown_core ps st c0 l).
 Proof.
-  unfold shutdown. destruct st as [st|]; [|apply dok_app; reflexivity].
+  unfold shutdown_core. destruct st as [st|]; [|apply dok_app; reflexivity].
   pose proof (occ_post ps st c0 l) as H. destruct (on_client_connection_close ps st c0 l) as [l1 x]. cbn [fst] in H.
   destruct x as [e|]; [destruct (is_oserror e)|]; (eapply dok_trans; [exact H|apply dok_app; reflexivity]).
+Qed.
+
+Lemma shutdown_post ps st c0 ff l : delta_ok q_post l (shutdown ps st c0 ff l).
+Proof.
+  unfold shutdown. destruct ff; [|apply shutdown_core_post].
+  eapply dok_trans; [apply (dok_app q_post l [ClientFlush]); reflexivity|apply shutdown_core_post].
 Qed.
 
 (* close_chain when no close hook raises: every plugin exactly once, in order *)
@@ -588,7 +595,9 @@ Lemma lifecycle_shape cf ps c0 steps :
   lifecycle_total ps -> keeps_keys ps -> (forall t, ctx_ok t c0) ->
   existsb is_first steps = true ->
   exists l0 st dOAL e,
-    run_steps cf ps None false steps [] = (l0, Some st)
+    delta_ok q_pre [] l0
+    /\ (exists lr, run_steps cf ps None false steps [] = (lr, Some st)
+                  /\ l0 = if cf_final_flush cf then lr ++ [ClientFlush] else lr)
     /\ chain OAL ACtx on_access_log ps c0 l0 = (l0 ++ dOAL, e)
     /\ run_conn cf ps c0 steps =
          l0 ++ dOAL
@@ -599,13 +608,17 @@ Lemma lifecycle_shape cf ps c0 steps :
 Proof.
   intros Ht Hk Hc0 Hf. unfold run_conn.
   destruct (run_steps_initialised cf ps steps [] Hf) as [st Hst].
-  destruct (run_steps cf ps None false steps []) as [l0 st'] eqn:E. cbn [snd] in Hst. subst st'.
+  pose proof (run_steps_pre cf ps None false steps []) as Hpre0.
+  destruct (run_steps cf ps None false steps []) as [lr st'] eqn:E. cbn [snd] in Hst. subst st'. cbn [fst] in Hpre0.
+  unfold shutdown. set (l0 := if cf_final_flush cf then lr ++ [ClientFlush] else lr).
+  assert (Hpre : delta_ok q_pre [] l0).
+  { unfold l0. destruct (cf_final_flush cf); [|exact Hpre0]. eapply dok_trans; [exact Hpre0|apply dok_app; reflexivity]. }
   pose proof (chain_dok OAL ACtx on_access_log ps c0 l0) as [dOAL [Hd _]].
   pose proof (chain_oal_total ps c0 l0 Ht) as Hend.
   pose proof (chain_preserves (ctx_ok (rq_tunnel (st_request st))) OAL ACtx on_access_log ps c0 l0) as Hinv.
   destruct (chain OAL ACtx on_access_log ps c0 l0) as [l1 e] eqn:Ec. cbn [fst snd] in *. subst l1.
-  exists l0, st, dOAL, e. split; [reflexivity|]. split; [exact Ec|].
-  unfold shutdown, on_client_connection_close, access_log_stage. rewrite Ec.
+  exists l0, st, dOAL, e. split; [exact Hpre|]. split; [exists lr; split; reflexivity|]. split; [exact Ec|].
+  unfold shutdown_core, on_client_connection_close, access_log_stage. rewrite Ec.
   destruct Ht as [_ Hcl].
   destruct e as [c|c|c r|c x]; try contradiction.
   - unfold access_log.
@@ -648,12 +661,11 @@ Theorem lifecycle_once cf ps c0 steps :
                   /\ (length (filter is_access_log l) = 1%nat -> n = length ps))
     /\ length (filter is_client_close l) = 1%nat
   else
-    l = [ClientShutdown; ClientClose].
+    l = (if cf_final_flush cf then [ClientFlush] else []) ++ [ClientShutdown; ClientClose].
 Proof.
   intros Ht Hk Hc0 l. destruct (existsb is_first steps) eqn:Hf.
-  - destruct (lifecycle_shape cf ps c0 steps Ht Hk Hc0 Hf) as (l0 & st & dOAL & e & Hr & Hc & Hl).
+  - destruct (lifecycle_shape cf ps c0 steps Ht Hk Hc0 Hf) as (l0 & st & dOAL & e & Hpre & _ & Hc & Hl).
     subst l. rewrite Hl. clear Hl.
-    pose proof (run_steps_pre cf ps None false steps []) as Hpre. rewrite Hr in Hpre. cbn [fst] in Hpre.
     destruct Hpre as [d0 [Hd0 Hq0]]. cbn in Hd0. subst d0.
     destruct (chain_calls_prefix OAL ACtx on_access_log ps c0 l0) as (n & d & H1 & H2 & H3 & H4).
     rewrite Hc in H1, H4. cbn [fst snd] in H1, H4. apply app_inv_head in H1. subst d.
@@ -668,13 +680,13 @@ Proof.
       now rewrite Hfq. }
     assert (Fu : forall f, f UpstreamClose = false -> filter f (if st_upstream st then [UpstreamClose] else []) = []).
     { intros f Hfu. destruct (st_upstream st); cbn; [now rewrite Hfu|reflexivity]. }
-    assert (Q1 : forall ev, q_pre ev = true -> is_call_of OUCC ev = false) by (intros [p [] a| | | | | | | | |]; cbn; try discriminate; reflexivity).
-    assert (Q2 : forall ev, q_pre ev = true -> is_call_of OAL ev = false) by (intros [p [] a| | | | | | | | |]; cbn; try discriminate; reflexivity).
-    assert (Q3 : forall ev, q_pre ev = true -> is_access_log ev = false) by (intros [p [] a| | | | | | | | |]; cbn; try discriminate; reflexivity).
-    assert (Q4 : forall ev, q_pre ev = true -> is_client_close ev = false) by (intros [p [] a| | | | | | | | |]; cbn; try discriminate; reflexivity).
-    assert (D1 : forall ev, is_call_of OAL ev = true -> is_call_of OUCC ev = false) by (intros [p [] a| | | | | | | | |]; cbn; try discriminate; reflexivity).
-    assert (D3 : forall ev, is_call_of OAL ev = true -> is_access_log ev = false) by (intros [p [] a| | | | | | | | |]; cbn; try discriminate; reflexivity).
-    assert (D4 : forall ev, is_call_of OAL ev = true -> is_client_close ev = false) by (intros [p [] a| | | | | | | | |]; cbn; try discriminate; reflexivity).
+    assert (Q1 : forall ev, q_pre ev = true -> is_call_of OUCC ev = false) by (intros [p [] a| | | | | | | | | |]; cbn; try discriminate; reflexivity).
+    assert (Q2 : forall ev, q_pre ev = true -> is_call_of OAL ev = false) by (intros [p [] a| | | | | | | | | |]; cbn; try discriminate; reflexivity).
+    assert (Q3 : forall ev, q_pre ev = true -> is_access_log ev = false) by (intros [p [] a| | | | | | | | | |]; cbn; try discriminate; reflexivity).
+    assert (Q4 : forall ev, q_pre ev = true -> is_client_close ev = false) by (intros [p [] a| | | | | | | | | |]; cbn; try discriminate; reflexivity).
+    assert (D1 : forall ev, is_call_of OAL ev = true -> is_call_of OUCC ev = false) by (intros [p [] a| | | | | | | | | |]; cbn; try discriminate; reflexivity).
+    assert (D3 : forall ev, is_call_of OAL ev = true -> is_access_log ev = false) by (intros [p [] a| | | | | | | | | |]; cbn; try discriminate; reflexivity).
+    assert (D4 : forall ev, is_call_of OAL ev = true -> is_client_close ev = false) by (intros [p [] a| | | | | | | | | |]; cbn; try discriminate; reflexivity).
     split; [|split].
     + rewrite !filter_app, (F0 _ Q1), (FD _ D1), filter_oucc_map, (Fu _ eq_refl).
       destruct e; cbn; now rewrite app_nil_r.
@@ -687,7 +699,7 @@ Proof.
       * destruct e as [c|c|c r|c x]; cbn; try discriminate. intros _. now apply (H4 c).
     + rewrite !filter_app, (F0 _ Q4), (FD _ D4), (FM is_client_close), (Fu _ (eq_refl : is_client_close UpstreamClose = false)) by reflexivity.
       destruct e; reflexivity.
-  - subst l. unfold run_conn. rewrite (run_steps_none cf ps steps [] Hf). reflexivity.
+  - subst l. unfold run_conn. rewrite (run_steps_none cf ps steps [] Hf). unfold shutdown. destruct (cf_final_flush cf); reflexivity.
 Qed.
 
 (* ------------------------------------------------------------------ C08: an unauthenticated first request reaches nothing *)
@@ -713,7 +725,7 @@ Qed.
 
 Lemma q_post_filters e : q_post e = true ->
   is_connect e = false /\ is_queue_upstream e = false /\ is_queue_client e = false /\ is_request_hook e = false.
-Proof. destruct e as [p [] a| | | | | | | | |]; cbn; try discriminate; auto. Qed.
+Proof. destruct e as [p [] a| | | | | | | | | |]; cbn; try discriminate; auto. Qed.
 
 Theorem auth_fail_reaches_nothing cf agent code users r c rest c0 :
   truthy (Some code) = true -> auth_ok code (rq_headers r) = false ->
@@ -728,7 +740,7 @@ Proof.
   intros Ht Hno l. subst l. unfold run_conn. rewrite (auth_fail_steps cf agent code users r c rest [] Ht Hno).
   cbn [app].
   set (l3 := [Call AUTH_PID BUC (ARequest r); QueueClient (PROXY_AUTH_FAILED_RESPONSE_PKT agent); Teardown]).
-  pose proof (shutdown_post (auth_plugin agent (Some code) :: users) (Some (mkState r false None)) c0 l3) as Hp.
+  pose proof (shutdown_post (auth_plugin agent (Some code) :: users) (Some (mkState r false None)) c0 (cf_final_flush cf) l3) as Hp.
   split; [exact Hp|].
   unfold connect_log, upstream_queue, client_queue.
   rewrite (dok_filter q_post is_connect l3 _ (fun e H => proj1 (q_post_filters e H)) Hp).
@@ -1039,7 +1051,7 @@ Proof.
   pose proof (run_steps_clean cf ps None false steps [] Hp Hs (fun b H => match H with end) I) as Hq.
   destruct (run_steps cf ps None false steps []) as [l st]. cbn [fst] in Hq.
   eapply qclean_dok; [exact Hq|]. eapply dok_weaken; [|apply shutdown_post].
-  intros e He. destruct e as [p [] a| | | | | | | | |]; try discriminate; reflexivity.
+  intros e He. destruct e as [p [] a| | | | | | | | | |]; try discriminate; reflexivity.
 Qed.
 
 (* the raw relay only happens inside a CONNECT tunnel or after a protocol upgrade was forwarded *)
